@@ -159,11 +159,18 @@ def run_for(prop: str, ctx) -> dict:
     with ProcessPoolExecutor(max_workers=workers) as ex:
         for r in ex.map(_run_one, jobs):
             results.append(r)
+    # behaviour-preserving renames of locals (all locals of one analysed function at once): must stay silent
+    from .robust import TYPED, sweep
+    rn = sweep(prop, star_only=True, cap=6 if prop in TYPED else 60, workers=16, repo=repo)
+    for q, n, o, d in rn:
+        results.append((f'rename-locals:{q.split(".", 1)[-1]}', 'SILENT' if o in ('ok', 'skip') else 'FAIL',
+                        '' if o in ('ok', 'skip') else f'{o}: {d}'))
     fails = [r for r in results if r[1] == 'FAIL']
     summary = {
         'variants': len(results),
         'mutants_caught': sum(1 for r in results if r[1] == 'CAUGHT'),
-        'twins_silent': sum(1 for r in results if r[1] == 'SILENT'),
+        'twins_silent': sum(1 for r in results if r[1] == 'SILENT' and not r[0].startswith('rename-locals:')),
+        'rename_variants_silent': sum(1 for r in results if r[1] == 'SILENT' and r[0].startswith('rename-locals:')),
         'skipped': sum(1 for r in results if r[1] == 'SKIP'),
         'failed': len(fails),
         'results': [{'variant': n, 'outcome': o, 'detail': d} for n, o, d in results],
